@@ -153,7 +153,10 @@ func (srv *Server) handleChannel(ctx context.Context, c *ServerChannel) {
 			// Do not use the shared context since it could be canceled
 			ctx, cancel := context.WithTimeout(context.Background(), time.Second)
 			defer cancel()
-			_ = c.FinishSession(ctx)
+			if err := c.FinishSession(ctx); err != nil {
+				// the farewell could not be delivered: the connection still has to be released
+				_ = c.Close()
+			}
 		} else {
 			// the session already ended (finished by the client, failed, or its connection was lost):
 			// make sure the receiver and the connection are released
